@@ -11,6 +11,8 @@ def memory_model(ctx, want, progs=None, avoid=()):
     """C02 (complete) / C03 (sound) share the litmus family and the runs."""
     progs = progs if progs is not None else families.litmus(ctx.tier, ctx.seed, avoid=avoid)
     lower, upper = core.lower_upper(ctx, progs, families.has_sc_access, coverage=True)
+    if "complete" in want:
+        sc_lower_bound(ctx, progs, lower, upper)
     tcap = 0 if "trace" not in want else (30 if ctx.tier == "quick" else 400)
     res = core.run_loom(ctx, progs, cfg_of=lambda p: {"iter_cap": iter_cap(ctx.tier), "trace_cap": tcap})
     nontriv = 0
@@ -40,7 +42,64 @@ def ax_eligible(p):
             if i["op"] not in ("ld", "st", "rmw", "fence") or (i["op"] == "rmw" and i["k"] != "swap"):
                 return False
     n_writes = sum(1 for th in p["threads"][1:] for i in th if i["op"] in ("st", "rmw"))
-    return not families.has_sc_access(p) and n_writes <= 5
+    return n_writes <= 5
+
+
+def ax_cost(p):
+    import math
+    w, c = {}, 1
+    for th in p["threads"][1:]:
+        for i in th:
+            if i["op"] in ("st", "rmw"): w[i["o"]] = w.get(i["o"], 0) + 1
+    for n in w.values(): c *= math.factorial(n)
+    for th in p["threads"]:
+        for i in th:
+            if i["op"] == "ld": c *= w.get(i["o"], 0) + 1
+    return c
+
+
+def ax_outcomes(ctx, sub, relseq, label):
+    """outcome sets (ok keys) of the axiomatic RC11 spec for the programs `sub`"""
+    import shutil
+    work = os.path.join(ctx.work, "ax_" + label)
+    os.makedirs(work, exist_ok=True)
+    with open(os.path.join(work, "MCProgsMod.tla"), "w") as f:
+        f.write(dsl.render_progs_module("MCProgsMod", sub))
+    shutil.copy(os.path.join(tlc.SPECS, "MCAx.tla"), os.path.join(work, "MCAx.tla"))
+    r = tlc.run_tlc(work, "MCAx", os.path.join(tlc.SPECS, f"MCAx_{relseq}.cfg"), workers=ctx.tlc_workers, timeout=1500)
+    if "Model checking completed. No error has been found." not in r["text"]:
+        open(os.path.join(work, "tlc_error.log"), "w").write(r["text"])
+        raise tlc.ToolError(f"RC11Ax failed (see {work}/tlc_error.log)")
+    ctx.add_tlc(r, "RC11Ax_" + label)
+    outs = [set() for _ in sub]
+    for o in tlc.parse_out_lines(r["text"]):
+        outs[o["p"] - 1].add(tlc.canon_outcome(o)[1])
+    return outs
+
+
+def sc_lower_bound(ctx, progs, lower, upper):
+    """Programs with SeqCst accesses: the interleaving set is only a lower bound of the lower bound.  For the
+    eligible ones the axiomatic RC11 spec (psc axiom) gives the exact set of allowed outcomes; use it."""
+    idx = [i for i, p in enumerate(progs) if families.has_sc_access(p) and ax_eligible(p)]
+    budget = 20000 if ctx.tier == "quick" else 400000
+    chosen = []
+    for i in idx:
+        c = ax_cost(progs[i])
+        if c <= budget:
+            budget -= c
+            chosen.append(i)
+    if not chosen:
+        return
+    outs = ax_outcomes(ctx, [progs[i] for i in chosen], "TRUE", "sc")
+    for k, i in enumerate(chosen):
+        if not (lower[i].ok <= outs[k]):
+            raise tlc.ToolError("oracle self-inconsistency: an interleaving outcome is not RC11-consistent for "
+                                f"[{dsl.pretty(progs[i])}]: {sorted(lower[i].ok - outs[k])[:3]}")
+        if not (outs[k] <= upper[i].ok):
+            raise tlc.ToolError("oracle self-inconsistency: an RC11 outcome is not an outcome of the acq/rel view machine for "
+                                f"[{dsl.pretty(progs[i])}]: {sorted(outs[k] - upper[i].ok)[:3]}")
+        lower[i].ok = outs[k]
+    ctx.cov["sc_programs_with_exact_rc11_lower_bound"] = len(chosen)
 
 
 def oracle_selfcheck(ctx, progs, lower, upper, limit=60):
@@ -48,7 +107,7 @@ def oracle_selfcheck(ctx, progs, lower, upper, limit=60):
     A disagreement is a bug in the specifications: tool error, never a violation."""
     import shutil
     import random
-    idx = [i for i, p in enumerate(progs) if ax_eligible(p)]
+    idx = [i for i, p in enumerate(progs) if ax_eligible(p) and not families.has_sc_access(p)]
     random.Random(ctx.seed).shuffle(idx)       # a different sample of the eligible programs per seed
     # candidate executions per program = prod(writes per location)! * prod(candidate stores per load): bound the total
     import math
